@@ -34,6 +34,7 @@ Prims == { Bool, U(2, "s"), U(3, "t"), I(3), U(8, "s"), F(16), V(3) }
 Comp  == St(<<U(3, "s")>>)
 DComp == Del(St(<<U(8, "s")>>), 16)              \* a delimited sibling whose extent exceeds its content
 DUn   == Del(Un(<<Bool, U(8, "s")>>), 24)        \* a delimited union sibling: its bool variant ends off a byte boundary
+DArr  == Del(St(<<Fix(U(8, "s"), 2)>>), 32)       \* a delimited sibling that holds an octet array (extent above its content)
 Sibs  == { Bool, U(5, "t"), Comp, DComp, DUn, Var(U(2, "s"), 2) }
 NonVoid(t) == t.k # "void"
 Elem(t) == t.k \notin {"void", "fix", "var"}
@@ -58,6 +59,7 @@ EncOut(c) ==
 DecOut(c) == DecTop(c.ty, c.bits, c.hdr)
 
 Init == ph = 0 /\ case = [ty |-> Bool] /\ out = 0
+\* (delimited types are starting points too: single-field structures and arrays of them appear after one step)
 Pick == ph = 0 /\ \E t \in Prims : case' = [ty |-> t] /\ out' = 0 /\ ph' = 1
 \* the outermost of three nesting steps is taken from a smaller set (the full product has ~10^5 types)
 TopWraps(t) ==
@@ -85,6 +87,11 @@ WidePrims == { U(9, "s"), U(12, "t"), U(15, "s"), I(11), I(14), U(17, "s"), U(23
 WideTypes(dummy) == { St(<<U(k, "t"), p>>) : k \in 1..7, p \in WidePrims }
                     \cup { St(<<U(k, "t"), Fix(p, 2), Bool>>) : k \in {3, 5}, p \in WidePrims }
                     \cup { Un(<<p, U(k, "t")>>) : k \in {3}, p \in WidePrims }
+                    \* single-field structures whose only field is of a delimited type (bare-value input forms), arrays of
+                    \* delimited types, an octet array inside a delimited sibling followed by further fields
+                    \cup { St(<<d>>) : d \in {DComp, DUn, DArr} } \cup { St(<<St(<<d>>)>>) : d \in {DComp, DUn} }
+                    \cup { St(<<Fix(d, 2), Bool>>) : d \in {DComp, DUn, DArr} } \cup { St(<<Var(d, 2), U(8, "s")>>) : d \in {DComp, DArr} }
+                    \cup { St(<<U(5, "t"), DArr, U(8, "s")>>), St(<<DArr, Bool>>), Un(<<Bool, DArr>>), Del(St(<<DArr, U(8, "s")>>), 64) }
 PickWide == ph = 0 /\ Wide /\ \E t \in WideTypes(0) : case' = [ty |-> t] /\ out' = 0 /\ ph' = Growth + 1
 Next == Pick \/ PickWide \/ Grow \/ Complete
 Spec == Init /\ [][Next]_vars
